@@ -152,6 +152,75 @@ def key_values_are_never_folded(repo, rep):
                             'key values' % n)
 
 
+def _case_folds_exactly_for_canonical(case):
+    """every return path of the nested case() helper returns the folded
+    parameter when format == 'canonical' holds and the parameter itself
+    otherwise (whatever statement form is used)"""
+    from ..paths import return_paths
+    params = [p for p in case.params]
+    if len(params) != 1:
+        return False
+    par = params[0]
+    paths = return_paths(case, max_paths=16, inline=False)
+    if not paths:
+        return False
+    todo = []
+    for p_ in paths:
+        v = p_.value
+        # one step through the local the result was put in (the definition
+        # `str_ = str_.lower()` mentions the name itself)
+        if isinstance(v, ast.Name) and v.id in p_.env:
+            v = p_.env[v.id][0]
+        todo.append((list(p_.facts), v))
+    for facts, v in todo:
+        if isinstance(v, ast.IfExp):
+            todo.append((facts + [(v.test, True)], v.body))
+            todo.append((facts + [(v.test, False)], v.orelse))
+            continue
+        canon = None
+        for t, pol in facts:
+            if eqsrc(t, "format == 'canonical'"):
+                canon = pol
+            elif eqsrc(t, "format != 'canonical'"):
+                canon = not pol
+        if canon is None or v is None:
+            return False
+        if canon:
+            if not (isinstance(v, ast.Call) and not v.args and
+                    isinstance(v.func, ast.Attribute) and
+                    v.func.attr in ('lower', 'casefold') and
+                    norm(v.func.value) == par):
+                return False
+        elif norm(v) != par:
+            return False
+    return True
+
+
+def _sorted_after_folding(e, names):
+    """`e` is sorted(<items>) with every item (or the first component of
+    every item tuple) a key name folded by case() - so the order is the
+    order of the folded names"""
+    if not (isinstance(e, ast.Call) and dotted(e.func) == 'sorted' and
+            len(e.args) == 1 and not e.keywords):
+        return False
+    a = e.args[0]
+    if not isinstance(a, (ast.ListComp, ast.GeneratorExp, ast.SetComp)) or \
+            len(a.generators) != 1 or a.generators[0].ifs:
+        return False
+    g = a.generators[0]
+    it = norm(g.iter)
+    if not (it in names or 'keybindings' in it):
+        return False
+    elt = a.elt
+    if isinstance(elt, ast.Tuple) and elt.elts:
+        elt = elt.elts[0]
+    tgt = g.target
+    if isinstance(tgt, ast.Tuple) and tgt.elts:
+        tgt = tgt.elts[0]
+    return isinstance(elt, ast.Call) and dotted(elt.func) == 'case' and \
+        len(elt.args) == 1 and norm(elt.args[0]) == norm(tgt)
+
+
 def run(repo, rep, tier):
     r1 = rep.rule('C07.R1', 'from_wbem_uri raises only ValueError')
     r2 = rep.rule('C07.R2', 'printer alphabet inside parser language')
@@ -506,13 +575,7 @@ def run(repo, rep, tier):
         if case is None:
             raise AnalysisError('%s.to_wbem_uri: case() vanished' % cls.name)
         r5.sites += 1
-        ok = len(case.body) == 2 and isinstance(case.body[0], ast.If) and \
-            eqsrc(case.body[0].test, "format == 'canonical'") and \
-            len(case.body[0].body) == 1 and not case.body[0].orelse and \
-            norm(case.body[0].body[0]) in ('str_ = str_.lower()',
-                                           'str_ = str_.casefold()') and \
-            isinstance(case.body[1], ast.Return) and \
-            norm(case.body[1].value) == 'str_'
+        ok = _case_folds_exactly_for_canonical(case)
         r5.ob(ok, cls.name + ':case', {'case': norm(case.node, 200)})
         if not ok:
             rep.finding(r5, case.qualname, 'case()', 'case-shape', OBJ,
@@ -520,19 +583,21 @@ def run(repo, rep, tier):
                         'exactly for the canonical format')
     f = inm.methods['to_wbem_uri']
     cs = f.nested.get('case_sorted')
-    if cs is None:
-        raise AnalysisError('case_sorted() vanished')
-    ok = len(cs.body) == 1 and isinstance(cs.body[0], ast.Return) and \
-        eqsrc(cs.body[0].value, 'sorted([case(k) for k in keys])')
-    r5.ob(ok, 'case_sorted', {'case_sorted': norm(cs.node, 200)})
-    if not ok:
-        rep.finding(r5, cs.qualname, 'case_sorted()', 'sort-shape', OBJ,
-                    cs.node.lineno, 'keys are not sorted after case '
-                    'folding')
+    if cs is not None:
+        ok = _sorted_after_folding(
+            cs.body[0].value if len(cs.body) == 1 and
+            isinstance(cs.body[0], ast.Return) else None, ('keys',))
+        r5.ob(ok, 'case_sorted', {'case_sorted': norm(cs.node, 200)})
+        if not ok:
+            rep.finding(r5, cs.qualname, 'case_sorted()', 'sort-shape', OBJ,
+                        cs.node.lineno, 'keys are not sorted after case '
+                        'folding')
     loops = [n for n in walk_no_nested(f.node) if isinstance(n, ast.For) and
              'keybindings' in norm(n.iter)]
     ok = len(loops) == 1 and isinstance(loops[0].iter, ast.Call) and \
-        dotted(loops[0].iter.func) == 'case_sorted'
+        ((cs is not None and
+          dotted(loops[0].iter.func) == 'case_sorted') or
+         _sorted_after_folding(loops[0].iter, ()))
     r4.ob(ok, 'keys-via-case_sorted')
     if not ok:
         rep.finding(r4, f.qualname, 'for key in ...', 'keys-order', OBJ,
